@@ -201,12 +201,14 @@ fn verif_run_script() {
         .collect();
     let mut t0: i128 = 0;
     let mut tol: Option<i128> = None;
+    let mut capacity: usize = 16;
     let mut lags = HashMap::new();
     let mut reqs: HashMap<usize, SchedReq> = HashMap::new();
     for l in &lines {
         match l[0].as_str() {
             "t0" => t0 = l[1].parse().unwrap(),
             "tol" => tol = if l[1] == "none" { None } else { Some(l[1].parse().unwrap()) },
+            "capacity" => capacity = l[1].parse().unwrap(),
             "clock" => {
                 let k = l[1].parse::<usize>().unwrap();
                 if l[2] == "lag" {
@@ -231,8 +233,8 @@ fn verif_run_script() {
     let sh = Arc::new(Shared::default());
     let armed = Arc::new(Mutex::new(false));
     let handle: Arc<Mutex<Option<(Scheduler, EventSource<u64>)>>> = Arc::new(Mutex::new(None));
-    let mbox_a: Mailbox<R> = Mailbox::new();
-    let mbox_b: Mailbox<R> = Mailbox::new();
+    let mbox_a: Mailbox<R> = Mailbox::with_capacity(capacity);
+    let mbox_b: Mailbox<R> = Mailbox::with_capacity(capacity);
     let addr_a: Address<R> = mbox_a.address();
     let addr_b: Address<R> = mbox_b.address();
     let mut init = SimInit::with_num_threads(threads)
@@ -262,7 +264,7 @@ fn verif_run_script() {
     };
     for l in &lines {
         let op = l[0].as_str();
-        if op == "t0" || op == "tol" || op == "clock" {
+        if op == "t0" || op == "tol" || op == "clock" || op == "capacity" {
             continue;
         }
         let i = idx;
